@@ -60,7 +60,7 @@ CHECKS = {
          "runtime monitor: identity keys present iff the predicate holds with true values; the same publication restricted to one recipient must give that recipient identical details; in-process message objects are re-read after quiescence and after further traffic and after another recipient mutated its copy; on_join and wamp.session.get are scanned for transport.auth",
          "private copies are judged at the top level of details, arguments and keyword arguments (I12); sender/recipient aliasing of call payloads is not judged"),
  "C14": ("pure", "exploration",
-         "runtime round-trip / cross-format / shape monitors and hostile-byte monitors with an independent generic decode (checkptr build)",
+         "runtime round-trip / cross-format / shape monitors and hostile-byte monitors with an independent generic decode (checkptr build), the first 12 (thorough: 120) cases repeated under an AddressSanitizer build (go test -asan)",
          "runtime monitor on the real serializers: generated messages of all 24 types are serialised and deserialised by each format and compared in a canonical form, the encoded list shape is checked by an independent generic decode, and hostile byte strings must give error xor message, never a panic, and a message only if the bytes are generically a list headed by a known code with kind-compatible fields",
          "third-party codec trusted beyond agreement of its three handles; JSON has no binary type; integral floats beyond 2^53 compared as doubles (known finding for >= 2^63)"),
  "C18": ("bubble", "exploration",
